@@ -85,6 +85,7 @@ def load(backend="snarkjs", symbolic=False, quiet=True):
         from . import engine
         engine.inject(*e.mods)
         engine.ENG.modulus = e.P
+        engine.ENG.tokenize_str = (backend == "qaptools")
         install_bool_summaries(e, engine)
     _ENV = e
     return e
